@@ -1,6 +1,6 @@
 (* Entry.v — named entry points: sx case -> sx result.  Used by the extracted
    driver and by the in-kernel replays (vm_compute). *)
-From WD Require Import Base LetterId.
+From WD Require Import Base LetterId Wire Protocol Conn Color Matcher MatcherParse Show Session.
 
 Definition e_n2l (a : sx) : sx :=
   match a with
@@ -14,9 +14,73 @@ Definition e_l2n (a : sx) : sx :=
   | _ => sx_err
   end.
 
-Definition entries : list (str * (sx -> sx)) :=
+(* ---- session ------------------------------------------------------------------------ *)
+Definition sx_oline (o : oline) : sx :=
+  match o with
+  | OOut l => SL [SS (s2l "out"); sx_line l]
+  | OErr l => SL [SS (s2l "err"); sx_line l]
+  | OMaybe l => SL [SS (s2l "maybe"); sx_line l]
+  | OAnyLines => SL [SS (s2l "anylines")]
+  | OExec c => SL [SS (s2l "exec"); SS c]
+  | OStop b => SL [SS (s2l "stop"); sx_bool b]
+  | OOM => SL [SS (s2l "oom")]
+  end.
+
+Definition get_event (s : sx) : option event :=
+  match s with
+  | SL [SS t; SS id; m] =>
+      if str_eqb t (s2l "msg") then option_map (EMsg id) (get_pmsg m) else None
+  | SL [SS t; SS x] =>
+      if str_eqb t (s2l "text") then Some (EText x)
+      else if str_eqb t (s2l "cmd") then Some (ECmd x)
+      else if str_eqb t (s2l "gdestroy") then Some (EGdbDestroy x)
+      else if str_eqb t (s2l "gcmd") then Some (EGdbCmd x)
+      else None
+  | SL [SS t] => if str_eqb t (s2l "eof") then Some EEof else None
+  | SL [SS t; SS id; SZ th; m] =>
+      if str_eqb t (s2l "gmsg") then option_map (EGdbMsg id th) (get_pmsg m) else None
+  | _ => None
+  end.
+
+Definition sx_conn (c : connst) : sx :=
+  SL [SS (c_name c); SS (c_id c); sx_opt sx_bool (c_server c); sx_bool (c_open c);
+      sx_ostr (c_title c); sx_ostr (c_app_id c);
+      SL (map sx_rmsg (c_msgs c));
+      SL (map (fun p => SL [SZ (fst p); SL (map sx_obj (snd p))]) (c_db c))].
+
+Definition sx_sess (s : sess) : sx :=
+  let k := s_ctrl s in
+  SL [SL (map sx_conn (s_conns s));
+      SS (mshow false (k_display k)); SS (mshow false (k_stop k));
+      sx_opt (fun n => SZ (Z.of_nat n)) (k_current k);
+      SL (map (fun p => SL [SZ (Z.of_nat (fst p)); sx_rmsg (snd p)]) (k_all k));
+      sx_bool (s_paused s); sx_bool (s_quit s); sx_bool (s_parse s)].
+
+(* (display? stop? color unprocessed in_gdb) events *)
+Definition e_session (P : pdb) (a : sx) : sx :=
+  match a with
+  | SL [SL [disp; stop; SZ col; SZ unp; SZ ing]; SL evs] =>
+      match get_ostr disp, get_ostr stop, get_list get_event evs with
+      | Some d, Some st, Some es =>
+          let pm (o : option str) (dflt : mt) : res mt :=
+            match o with None => Ok dflt | Some t => parse_simplify t end in
+          match pm d (MAlways true), pm st (MAlways false) with
+          | Ok dm, Ok sm =>
+              let s0 := init_sess dm sm (negb (Z.eqb col 0)) (negb (Z.eqb unp 0)) (negb (Z.eqb ing 0)) in
+              let '(s1, outs) := run P s0 es in
+              SL [SS (s2l "ok"); SL (map (fun l => SL (map sx_oline l)) outs); sx_sess s1]
+          | Raise e _, _ => SL [SS (s2l "raise"); SZ (exn_code e)]
+          | _, Raise e _ => SL [SS (s2l "raise"); SZ (exn_code e)]
+          end
+      | _, _, _ => sx_err
+      end
+  | _ => sx_err
+  end.
+
+Definition entries (P : pdb) : list (str * (sx -> sx)) :=
   [ (s2l "n2l", e_n2l);
-    (s2l "l2n", e_l2n) ].
+    (s2l "l2n", e_l2n);
+    (s2l "session", e_session P) ].
 
 Fixpoint lookup_entry (name : str) (l : list (str * (sx -> sx))) : option (sx -> sx) :=
   match l with
@@ -24,8 +88,10 @@ Fixpoint lookup_entry (name : str) (l : list (str * (sx -> sx))) : option (sx ->
   | (n, f) :: l' => if str_eqb n name then Some f else lookup_entry name l'
   end.
 
-Definition run_entry (name : str) (a : sx) : sx :=
-  match lookup_entry name entries with
+Definition run_entry (P : pdb) (name : str) (a : sx) : sx :=
+  match lookup_entry name (entries P) with
   | Some f => f a
   | None => SL [SS (s2l "no-such-entry")]
   end.
+
+Definition db_or_empty (s : sx) : pdb := match db_of_sx s with Some d => d | None => [] end.
